@@ -187,6 +187,10 @@ func (p *Prog) fillPropWriters(fp *ssa.Function) []*ssa.Function {
 			return
 		}
 		seen[fn] = true
+		if isWirePrimitive(fn) && fn.Name() == "fill" {
+			out = append(out, fn) // a wire type's own encoder: however it puts its bytes down (helpers included), R1.4 pairs it with the decoder
+			return
+		}
 		buf, _, _, _ := emissionsOf(p, fn)
 		if buf != nil && writesBufferDirectly(fn, buf) {
 			out = append(out, fn)
